@@ -12,6 +12,7 @@ GENERATORS = [
     ("gen_styles", "generate_styles", "GenStyles.v"),
     ("gen_styles", "generate_acronyms", "GenAcronyms.v"),
     ("gen_lock", "generate", "GenLock.v"),
+    ("gen_walker", "generate", "GenWalker.v"),
 ]
 
 
